@@ -289,6 +289,21 @@ func (p *Prop) Run(t *simhook.Tape, opt simkit.RunOpt) *simkit.RunResult {
 		if c.sh.getViol() == nil && abort == nil {
 			abort = c.reference(t)
 		}
+	} else if opt.RunIndex%4 == 3 {
+		// the same order in a quarter of the plain runs: the run's shared result
+		// objects (closures, trees, lazily completed structures) meet their FIRST
+		// use inside the interleaving, not in the sequential pass - a first-use
+		// logic error that synchronises correctly is invisible to the race detector
+		if opt.Counting {
+			p.St.Probes.Inc("plain_runs_concurrent_phase_first")
+		}
+		conc, abort = c.concurrent(t, ntasks)
+		if c.sh.getViol() == nil && abort == nil {
+			abort = c.reference(t)
+		}
+		if c.sh.getViol() == nil && abort == nil {
+			abort = c.history(t)
+		}
 	} else {
 		abort = c.reference(t)
 		if c.sh.getViol() == nil && abort == nil {
